@@ -86,6 +86,8 @@ type c15Made struct {
 	B string
 	C []bool
 	D map[uint8]int16
+	E [3]int8
+	F [2][]byte
 }
 
 // build creates a fresh generator expression (new objects every time) from the spec.
